@@ -33,6 +33,9 @@ FAMILIES = {
         {'family': 'cut', 'knobs': {}, 'quick': 300, 'thorough': 5000, 'first': 100000},
         # the terminal frame is the last thing read before the loss (terminal signal and loss handled in one receiver step)
         {'family': 'cut', 'knobs': {'p_terminal_race': 1.0, 'faults': ['eof', 'eof', 'error']}, 'quick': 300, 'thorough': 4000, 'first': 200000},
+        # ... or is handled while a reconnect / close requested locally is tearing the connection down
+        {'family': 'reconnect', 'knobs': {'who': 'app', 'causes': ['healthy'], 'p_teardown_race': 1.0, 'min_pending': 1, 'p_stale_fragments': 0.0,
+                                          'kinds': ['stream', 'stream', 'rr', 'channel']}, 'quick': 300, 'thorough': 4000, 'first': 300000},
     ],
     'C13': [
         {'family': 'core', 'knobs': {'max_steps': 20}, 'quick': 120, 'thorough': 1500},
